@@ -21,6 +21,7 @@ import (
 
 	"github.com/sourcenetwork/defradb/client"
 	"github.com/sourcenetwork/defradb/client/request"
+	"github.com/sourcenetwork/defradb/errors"
 	"github.com/sourcenetwork/defradb/internal/core"
 	"github.com/sourcenetwork/defradb/internal/datastore"
 	defrap "github.com/sourcenetwork/defradb/internal/request/graphql/parser"
@@ -96,6 +97,10 @@ func (p *parser) Parse(ctx context.Context, ast *ast.Document, options *client.G
 	_, span := tracer.Start(ctx)
 	defer span.End()
 
+	if err := validateVariableTypes(ast); err != nil {
+		return nil, []error{err}
+	}
+
 	schema := p.schemaManager.Schema()
 	validationResult := gql.ValidateDocument(schema, ast, nil)
 	if !validationResult.IsValid {
@@ -107,6 +112,38 @@ func (p *parser) Parse(ctx context.Context, ast *ast.Document, options *client.G
 	}
 
 	return defrap.ParseRequest(*schema, ast, options)
+}
+
+// validateVariableTypes returns an error if a variable definition has no, or an incomplete, type.
+//
+// The GQL parser accepts such definitions (e.g. `query($v: ) {...}` or `query($v: !) {...}`), but
+// the validation that follows does not expect them and panics.
+func validateVariableTypes(doc *ast.Document) error {
+	for _, def := range doc.Definitions {
+		op, ok := def.(*ast.OperationDefinition)
+		if !ok {
+			continue
+		}
+		for _, variable := range op.VariableDefinitions {
+			if variable == nil || !isCompleteType(variable.Type) {
+				return errors.New("variable definition is missing its type")
+			}
+		}
+	}
+	return nil
+}
+
+func isCompleteType(t ast.Type) bool {
+	switch t := t.(type) {
+	case *ast.Named:
+		return t != nil && t.Name != nil
+	case *ast.List:
+		return t != nil && isCompleteType(t.Type)
+	case *ast.NonNull:
+		return t != nil && isCompleteType(t.Type)
+	default:
+		return false
+	}
 }
 
 func (p *parser) ParseSDL(ctx context.Context, sdl string) ([]core.Collection, error) {
